@@ -170,9 +170,16 @@ def run(ctx):
         "distinct_nontrivial": vlib.distinct_count([facts(c) for c in nontriv]),
         "rule": "generated requests: 6 RPC kinds (+tombstone PUT) x 5 requesters (owner/users/IR node/container node, overlapping key sets) x random 32-bit masks (biased to pass) x random stored tables "
                 "(0-3 records, role/key/account/junk targets, request/object/other filters, all matchers, odd actions) x absent/valid/invalid(7 ways)/mismatching bearer x sticky x TTL; "
+                "preceded by a deterministic matrix: 7 operations (incl. tombstone PUT) x owner/others x {stored table denies and owner-issued bearer table allows, mirror image} x bearer rules for the operation "
+                "allowed / NOT allowed (extendable mask built with the SDK setters, operation allowed for the role) (+ GET/HEAD with the deciding rule on a returned-object header); "
                 "non-trivial = reached the eACL stage with a table or bearer token; distinct by facts",
         "outcome_histogram": dict(collections.Counter("%s:%d" % (c["kind"], c["obs"]["out"]) for c in cases)),
         "model_outcome_histogram": dict(collections.Counter(outs)),
         "bearer_histogram": dict(collections.Counter("none" if c["bearer"] is None else (c["bearer"]["why"] or "valid") for c in cases)),
+        # table selection: requests carrying a valid bearer token to an extendable container, by "bearer rules allowed for the operation" and outcome
+        "table_selection_histogram": dict(collections.Counter(
+            "%s bearer_rules=%s out=%d" % (c["kind"], "allowed" if c.get("bearer_bit") else "NOT-allowed", c["obs"]["out"])
+            for c in cases if c["bearer"] and c["bearer"]["valid"] and c.get("extendable") and c["obs"]["out"] in (0, 4, 5))),
+        "forced_matrix_cases": sum(1 for c in cases if c.get("forced")),
         "samples": cases[:3],
     })
